@@ -139,7 +139,7 @@ ABin(op, a, b) ==
          [] op = "-"  -> I(a.i - b.i)
          [] op = "*"  -> I(a.i * b.i)
          [] op = "//" -> IF b.i = 0 THEN Gar ELSE I(FloorDiv(a.i, b.i))   \* int(math.Floor(float/0)): no error, an arbitrary value
-         [] op = "%"  -> IF b.i = 0 THEN Err ELSE I(GoMod(a.i, b.i))
+         [] op = "%"  -> IF b.i = 0 THEN Err ELSE I(PyMod(a.i, b.i))   \* Go-style remainder until the repair ad24364 in /repo; now Python-style
          [] op \in CmpOps -> B(Cmp(op, a.i, b.i))
 AUn(op, a) == IF IsErr(a) THEN a
               ELSE IF op = "not" THEN B(~Truthy(a))
